@@ -217,7 +217,7 @@ def finish_history(P, rng):
 
 def from_spine(rng):
     """A program of spine's generator (the C01 generator without positive recursion and without body disjunction)."""
-    P = spine.gen_program(rng, cyclic=False, disjunction=False)
+    P = spine.gen_program(rng, cyclic=False, disjunction=False, numeric=True)
     if not in_fragment(P):
         return None
     finish_history(P, rng)
